@@ -204,7 +204,9 @@ def run(ctx):
     # 2-3. prove + audit
     if not ctx.broken():
         ctx.prove(MODULE, THEOREMS)
-        ctx.forbidden_scan(["AurelVerif/Props/C07.lean", "AurelVerif/Lemmas/Stencil.lean",
+        ctx.prove("AurelVerif.Props.C07b", ["AurelVerif.C07." + t for t in (
+            "rowValue_add", "rowValue_smul", "rowValue_neg", "rowValue_zero", "evalLin_relabel", "d3_linear")])
+        ctx.forbidden_scan(["AurelVerif/Props/C07.lean", "AurelVerif/Props/C07b.lean", "AurelVerif/Lemmas/Stencil.lean",
                             "AurelVerif/Lemmas/SpliceLemmas.lean", "AurelVerif/Lemmas/SpliceAux.lean", "AurelVerif/Lemmas/SpliceSpec.lean", "AurelVerif/Spec/FD.lean",
                             "AurelVerif/Model/Splice.lean", "AurelVerif/Gen/Stencils.lean"])
         if ctx.tier == "thorough":
